@@ -17,6 +17,10 @@
 (*   always: build_step(always_outdated=True)                                    *)
 (*   deps  : earlier target names (alias / cmd / test / default / install)       *)
 (*   dist  : FALSE for files declared with dist=False (C18)                      *)
+(*   pch   : TRUE for a linked target compiled with pch='pch_<name>.h': bfg9000    *)
+(*           creates the precompiled-header step itself; it consumes the header    *)
+(*           file pch_<name>.h and every generated header passed as includes=,     *)
+(*           and every object of the target consumes its output                    *)
 (* Header h1.h is included by s1.c and s2.c and is never named in the script.    *)
 EXTENDS Naturals, Sequences, FiniteSets, TLC
 
@@ -36,7 +40,9 @@ TargetsOf(refs) == { refs[i].t : i \in { j \in 1..Len(refs) : refs[j].t # "" } }
 
 Includes(f) == IF f \in {"s1", "s2"} THEN {"h1"} ELSE {}
 \* leaf files a declaration reads directly
-DirectFiles(d) == LET fs == FilesOf(d.srcs) \cup FilesOf(d.ins) IN fs \cup UNION { Includes(f) : f \in fs }
+PchFile(nm) == "pch_" \o nm
+DirectFiles(d) == LET fs == FilesOf(d.srcs) \cup FilesOf(d.ins) IN
+                  fs \cup UNION { Includes(f) : f \in fs } \cup (IF d.pch THEN {PchFile(d.name)} ELSE {})
 
 \* libraries whose requirements a static library forwards to whoever links it
 RECURSIVE Forward(_, _)
@@ -78,10 +84,14 @@ Always(script) == { nm \in Targets(script) : LET d == Decl(script, nm) IN (d.kin
 Acts(script) == { nm \in Targets(script) : Decl(script, nm).kind # "alias" }
 
 \* compile events: one per (linked target, source) pair
-Objs(script) == UNION { { <<nm, s>> : s \in ToSet(Decl(script, nm).srcs) } :
+\* (plus the precompiled header of a pch target: source [f |-> pch_<name>, t |-> ""])
+PchObj(nm) == <<nm, [f |-> PchFile(nm), t |-> ""]>>
+Objs(script) == UNION { { <<nm, s>> : s \in ToSet(Decl(script, nm).srcs) } \cup (IF Decl(script, nm).pch THEN {PchObj(nm)} ELSE {}) :
                         nm \in { x \in Targets(script) : Linked(Decl(script, x)) } }
 \* does recompiling object o = <<target, src>> follow from a change of file f / of target x ?
-ObjReadsFile(o, f) == o[2].f # "" /\ (o[2].f = f \/ f \in Includes(o[2].f))
+\* (every object of a pch target is compiled against the precompiled header)
+ObjReadsFile(o, f) == \/ o[2].f # "" /\ (o[2].f = f \/ f \in Includes(o[2].f))
+                      \/ f = PchFile(o[1])
 \* (a linked target's `ins` are generated headers passed as includes=: all its objects depend on them)
 ObjReadsTarget(script, o, x) == \/ (o[2].t # "" /\ x \in Upstream(script, o[2].t, "must"))
                                 \/ \E h \in TargetsOf(Decl(script, o[1]).ins) : x \in Upstream(script, h, "must")
